@@ -62,7 +62,8 @@ func c08TypeRows() []c08TypeRow {
 type c08FieldRow struct {
 	Required, Nullable, ReadOnly, WriteOnly bool
 	SkipPtr, XOmit                          int
-	JSONIgnore, NullableType, ROFlag        bool
+	JSONIgnore                              int // x-go-json-ignore: 0 unset, 1 true, 2 false
+	NullableType, ROFlag                    bool
 	GotPointer, GotWrap                     bool
 	GotTag                                  int
 	GotOmit                                 bool
@@ -118,8 +119,11 @@ func c08FieldCell(r c08FieldRow, member J) (c08FieldRow, error) {
 	case 2:
 		m["x-omitempty"] = false
 	}
-	if r.JSONIgnore {
+	switch r.JSONIgnore {
+	case 1:
 		m["x-go-json-ignore"] = true
+	case 2:
+		m["x-go-json-ignore"] = false
 	}
 	obj := J{"type": "object", "properties": J{"m": m}}
 	if r.Required {
@@ -188,7 +192,7 @@ func c08FieldRows() ([]c08FieldRow, error) {
 				for _, wo := range bools {
 					for sp := 0; sp < 3; sp++ {
 						for xo := 0; xo < 3; xo++ {
-							for _, ji := range bools {
+							for ji := 0; ji < 3; ji++ {
 								for _, nt := range bools {
 									for _, rf := range bools {
 										r, err := c08FieldCell(c08FieldRow{Required: req, Nullable: nul, ReadOnly: ro, WriteOnly: wo, SkipPtr: sp, XOmit: xo, JSONIgnore: ji, NullableType: nt, ROFlag: rf}, J{"type": "string"})
@@ -435,12 +439,45 @@ var c08Shapes = []J{
 	{"type": "array", "items": J{"type": "string", "enum": []interface{}{"a", "b"}}},
 	{"type": "array", "items": J{"type": "object", "properties": J{"n": J{"type": "string"}}, "additionalProperties": J{"type": "integer"}}},
 	{"type": "array", "items": J{"oneOf": []interface{}{J{"$ref": "#/components/schemas/Y"}, J{"type": "string"}}}},
+	// compositions: a member is a pointer with omitempty exactly when no member of the allOf requires it — whichever
+	// member of the composition declares it and whichever lists it as required (first, later, or another one)
+	{"allOf": []interface{}{J{"type": "object", "properties": J{"p": J{"type": "string"}}}, J{"type": "object", "required": []interface{}{"q"}, "properties": J{"q": J{"type": "integer"}}}}},
+	{"allOf": []interface{}{J{"$ref": "#/components/schemas/Y"}, J{"type": "object", "required": []interface{}{"a", "q"}, "properties": J{"q": J{"type": "integer"}, "r": J{"type": "boolean"}}}}},
+	{"allOf": []interface{}{J{"type": "object", "required": []interface{}{"p"}, "properties": J{"p": J{"type": "string"}}}, J{"type": "object", "properties": J{"q": J{"type": "integer"}}}, J{"type": "object", "required": []interface{}{"s"}, "properties": J{"s": J{"type": "string"}}}}},
 }
 var c08ShapeDoc = []string{"[]string", "[]Y", "map[string]interface{}", "map[string]interface{}", "map[string]int", "map[string]Y", "Y", "[][]int",
-	"[]X_Item", "[]X_Item", "[]X_Item"}
+	"[]X_Item", "[]X_Item", "[]X_Item",
+	"struct{P *string p,omitempty; Q int q}", "struct{A string a; Q int q; R *bool r,omitempty}", "struct{P string p; Q *int q,omitempty; S string s}"}
 
 // as the member m of H the item type is named after the path to it
-var c08ShapeDocMember = map[int]string{8: "[]HM", 9: "[]H_M_Item", 10: "[]H_M_Item"}
+var c08ShapeDocMember = map[int]string{8: "[]HM", 9: "[]H_M_Item", 10: "[]H_M_Item",
+	11: "struct{P *string p,omitempty; Q int q}", 12: "struct{A string a; Q int q; R *bool r,omitempty}", 13: "struct{P string p; Q *int q,omitempty; S string s}"}
+
+// c08Canon: a struct type as "struct{<Field> <type> <json name>[,omitempty]; ...}" (fields in the order of the
+// declaration); any other type expression unchanged
+func c08Canon(typ string) string {
+	ptr := ""
+	t := typ
+	if strings.HasPrefix(t, "*") {
+		ptr, t = "*", t[1:]
+	}
+	if !strings.HasPrefix(strings.TrimSpace(t), "struct") {
+		return typ
+	}
+	var fs []string
+	for _, line := range strings.Split(t, "\n") {
+		name, ft, tag, omit, _, ok := parseField(strings.TrimSpace(line))
+		if !ok {
+			continue
+		}
+		f := name + " " + ft + " " + tag
+		if omit {
+			f += ",omitempty"
+		}
+		fs = append(fs, f)
+	}
+	return ptr + "struct{" + strings.Join(fs, "; ") + "}"
+}
 
 type c08ShapeRow struct {
 	Shape    int
@@ -455,7 +492,7 @@ func c08ShapeRows() []c08ShapeRow {
 		gs, err := c08Schema(wDoc(J{}, J{"schemas": J{"X": copyJ(sh), "Y": y}}), "X", codegen.Configuration{})
 		got := "error"
 		if err == nil {
-			got = gs.TypeDecl()
+			got = c08Canon(gs.TypeDecl())
 		}
 		rows = append(rows, c08ShapeRow{i, false, got})
 		hs, err := c08Schema(wDoc(J{}, J{"schemas": J{"H": J{"type": "object", "properties": J{"m": copyJ(sh)}}, "Y": y}}), "H", codegen.Configuration{})
@@ -465,6 +502,17 @@ func c08ShapeRows() []c08ShapeRow {
 			for _, line := range codegen.GenFieldsFromProperties(hs.Properties) {
 				if m := fieldLineRe.FindStringSubmatch(line); m != nil && m[1] == "M" {
 					got = m[2]
+				}
+			}
+			if i >= 11 {
+				// an inline composition as a member: the struct is written in place, over several lines
+				got = "no-member"
+				if hv, err := viewOf("package p\ntype H " + hs.GoType + "\n"); err == nil {
+					for _, f := range hv.Fields["H"] {
+						if f.Name == "M" {
+							got = c08Canon(map[bool]string{true: "*", false: ""}[f.Pointer] + f.Type)
+						}
+					}
 				}
 			}
 		}
@@ -504,7 +552,7 @@ func genC08(ctx *Ctx) error {
 			if j == end-1 {
 				sep = ""
 			}
-			fmt.Fprintf(&b, "  ⟨%v, %v, %v, %v, %d, %d, %v, %v, %v, %v, %v, %d, %v⟩%s\n", r.Required, r.Nullable, r.ReadOnly, r.WriteOnly, r.SkipPtr, r.XOmit, r.JSONIgnore, r.NullableType, r.ROFlag, r.GotPointer, r.GotWrap, r.GotTag, r.GotOmit, sep)
+			fmt.Fprintf(&b, "  ⟨%v, %v, %v, %v, %d, %d, %d, %v, %v, %v, %v, %d, %v⟩%s\n", r.Required, r.Nullable, r.ReadOnly, r.WriteOnly, r.SkipPtr, r.XOmit, r.JSONIgnore, r.NullableType, r.ROFlag, r.GotPointer, r.GotWrap, r.GotTag, r.GotOmit, sep)
 		}
 		b.WriteString("]\n")
 		n++
@@ -575,7 +623,7 @@ var c08DocType = map[string]map[string]string{
 var c08DocExt = []int{1, 512, 2, 1 + 256, 4, 8, 16 + 8, 64, 32, 1024, 2048}
 
 func runC08(ctx *Ctx) error {
-	ctx.Res.Rule = "exhaustive tables: 4 types x 21 formats; required x nullable x readOnly x writeOnly x skip-optional-pointer{unset,true,false} x x-omitempty{unset,true,false} x x-go-json-ignore x nullable-type x disable-required-readonly-as-pointer (1152 cells) on a string member; 11 extensions (with vs without: which of 12 coordinates of the declarations change); CORR: the member rule on other member types (ref, array, object, map, integer) equals the string member's in the same cell; non-trivial = every cell"
+	ctx.Res.Rule = "exhaustive tables: 4 types x 21 formats; required x nullable x readOnly x writeOnly x skip-optional-pointer{unset,true,false} x x-omitempty{unset,true,false} x x-go-json-ignore{unset,true,false} x nullable-type x disable-required-readonly-as-pointer (1728 cells) on a string member; 11 extensions (with vs without: which of 12 coordinates of the declarations change); CORR: the member rule on other member types (ref, array, object, map, integer) equals the string member's in the same cell; non-trivial = every cell"
 	for _, r := range c08TypeRows() {
 		ty, f := c08Types[r.Ty], c08Formats[r.Fmt]
 		want, ok := c08DocType[ty][f]
@@ -610,10 +658,10 @@ func runC08(ctx *Ctx) error {
 		ctx.Res.Eval(J{"cell": fmt.Sprintf("%v/%v/%v/%v/%d/%d/%v/%v/%v", r.Required, r.Nullable, r.ReadOnly, r.WriteOnly, r.SkipPtr, r.XOmit, r.JSONIgnore, r.NullableType, r.ROFlag)}, true)
 		ctx.Res.Count("cell:field")
 		wantTag := 0
-		if r.JSONIgnore {
+		if r.JSONIgnore == 1 {
 			wantTag = 1
 		}
-		okc := r.GotPointer == c08DocPointer(r) && r.GotWrap == (r.NullableType && r.Nullable) && r.GotTag == wantTag && (r.JSONIgnore || r.GotOmit == c08DocOmit(r))
+		okc := r.GotPointer == c08DocPointer(r) && r.GotWrap == (r.NullableType && r.Nullable) && r.GotTag == wantTag && (r.JSONIgnore == 1 || r.GotOmit == c08DocOmit(r))
 		if !okc {
 			ctx.Res.Violate(fmt.Sprintf("field:req=%v:null=%v:ro=%v:wo=%v:skip=%d:xomit=%d:ignore=%v:nt=%v:rof=%v", r.Required, r.Nullable, r.ReadOnly, r.WriteOnly, r.SkipPtr, r.XOmit, r.JSONIgnore, r.NullableType, r.ROFlag),
 				fmt.Sprintf("member rendered as %q; documented pointer=%v nullable-wrapper=%v omitempty=%v", r.Line, c08DocPointer(r), r.NullableType && r.Nullable, c08DocOmit(r)), J{"cell": r})
@@ -638,11 +686,11 @@ func runC08(ctx *Ctx) error {
 		{"type": "object", "additionalProperties": J{"type": "string"}}, {"type": "integer", "format": "int64"}, {"type": "string", "format": "date-time"}, {"type": "number"}}
 	for i := 0; i < ctx.N(300, 3000); i++ {
 		r := ctx.Rng.Fork()
-		cell := c08FieldRow{Required: r.Bool(), Nullable: r.Bool(), ReadOnly: r.Bool(), WriteOnly: r.Bool(), SkipPtr: r.Intn(3), XOmit: r.Intn(3), JSONIgnore: r.Chance(20), NullableType: r.Bool(), ROFlag: r.Bool()}
+		cell := c08FieldRow{Required: r.Bool(), Nullable: r.Bool(), ReadOnly: r.Bool(), WriteOnly: r.Bool(), SkipPtr: r.Intn(3), XOmit: r.Intn(3), JSONIgnore: []int{0, 0, 0, 1, 2}[r.Intn(5)], NullableType: r.Bool(), ROFlag: r.Bool()}
 		m := members[r.Intn(len(members))]
 		if _, isRef := m["$ref"]; isRef {
 			// attributes next to a $ref are not read from the referencing site; only `required` applies
-			cell.Nullable, cell.ReadOnly, cell.WriteOnly, cell.SkipPtr, cell.XOmit, cell.JSONIgnore = false, false, false, 0, 0, false
+			cell.Nullable, cell.ReadOnly, cell.WriteOnly, cell.SkipPtr, cell.XOmit, cell.JSONIgnore = false, false, false, 0, 0, 0
 		}
 		got, err := c08FieldCell(cell, m)
 		if err != nil {
